@@ -200,7 +200,7 @@ def _impersonate_window(
 
     if signature.window.type == WindowType.MOD:
         return signature.window.size * random.randrange(
-            1, 2**16 // signature.window.size
+            1, (2**16 - 1) // signature.window.size + 1
         )
 
     if signature.window.type == WindowType.MTU:
